@@ -118,6 +118,29 @@ CHECKS.update({
             PIPE_NOTE, "DESIGN.md 6/C11"),
 })
 
+CHECKS.update({
+    "C13": ("model_checking", "TLC model checking of FileReader.tla (all scripts of read results up to 7/8, abstract clock) against ReaderFaults + scripted io.Reader under the real bufio.Reader/Handle + TLC trace validation",
+            "FileReader.tla mirrors Handle's read loop branch by branch (ReadData, ReadEOFFirst, ReadEOFRetry, ReadEOFExpired, ReadEOFZeroTolerance, ReadOtherError) over an abstract clock; TLC checks it against the L0 stop rule "
+            "for every script over {data, EOF, timeout, other error} in three timing regimes.  Code level: scripts (systematic placements of single/double/triple interruptions at byte offsets of multi-frame streams, "
+            "two interruptions, zero tolerance, seven kinds of other errors, TLC-simulated scripts) run under the real bufio.Reader and Handle; TLC recomputes the stop point and, with FramerCore and the real CRC, the messages that must be delivered.",
+            "Trusted: wall-clock margins (tolerance 60 ms, waits 0-1 ms) with a stall guard that discards, never flags, runs in which the machine itself stalled.", "DESIGN.md 6/C13"),
+    "C16": ("model_checking", "TLC model checking of Logger.tla (as-found switch gives the counterexample) + that schedule forced on the built binary through the verif pause hook + TLC trace validation of complete process runs",
+            "Logger.tla: copy loop, recorder goroutine and process exit; with WaitForRecorder the record file equals stdin at exit for all interleavings, without it TLC yields copy.send(last), rec.recv, copy.eof, main.exit before rec.write.  "
+            "The built rtcmlogger (tag verif) is run over OS pipes with VERIF_PAUSE_rec.write holding the recorder before its write while main reaches end of input - the counterexample schedule, deterministic - and free-running "
+            "with seeded chunkings, sizes around the 8096-byte block; stdout and the day's file are compared with stdin after the process has exited.",
+            "Trusted: SHA-1 + length for large inputs (bytes for small ones); the pause hook only delays.", "DESIGN.md 6/C16"),
+    "C18": ("model_checking", "TLC model checking of CircularQueue.tla (RWMutex protocol, eviction and insertion as separate steps, 3 processes) + exhaustive Add/Get sequences and hook-linearised concurrent histories validated by TLC",
+            "Design: the lock protocol refines the atomic last-N queue for capacities 1-3, three processes, up to 6/7 operations (vacuity guard: without the lock TLC finds the torn snapshot).  Code: every Add/Get sequence of length 9 (11-12) "
+            "for every capacity 1..8, long runs far beyond capacity, and concurrent adders/readers under the race detector; the addition order is logged by the verif hook inside the critical section, and TLC checks each snapshot is the "
+            "contiguous run LastMin(N, adds[1..k]) for a k consistent with the real-time order of calls and returns.",
+            "Trusted: the hook placement (after the insertion, before Unlock); atomic stamp counter for real-time order.", "DESIGN.md 6/C18"),
+    "C19": ("model_checking", "TLC model checking of Proxy.tla (relay, tee into the parser, queue, status snapshot; crashing-parser switch as vacuity guard) + TLC trace validation of TCP loopback sessions through the built binary",
+            "Proxy.tla shows the relay never depends on the status reader and delivers everything under fairness, and that a crashing parser kills the relay (why the C07 defect was also a C19 defect).  Code: sessions through the built proxy "
+            "with harness-owned upstream server and client, both directions at once, chunkings from 1 byte to whole-buffer bursts, valid / malformed / random / HTML-spelling traffic; TLC requires byte-for-byte relay, the process alive, "
+            "the report's messages (read back from the hex dumps) to be a run of what FramerCore delimits in the client stream, and no '<' or '>' in any traffic-derived slot of the report.",
+            "Trusted: loopback TCP as FIFO byte streams; the report template's literal text for cutting the slots.  TLS mode and multiple simultaneous clients are not exercised.", "DESIGN.md 6/C19"),
+})
+
 NOT_YET = {}
 
 
